@@ -237,6 +237,19 @@ pub fn c07(tier: &str) -> i32 {
         plans.push(plan(&format!("tick {}: unplaced limit and market orders at the snapshot point", tick), q, 3, if t { 4 } else { 3 }));
     }
     with_bases(&mut plans, "snapshot", &p, 3, if t { 3 } else { 2 });
+    with_big_bases(&mut plans, "snapshot", &p, 3, 2);
+    // numbers beyond 2^31 / 2^32 / 2^53 must survive the JSON round trip
+    let mut mg = Profile::magnitude("snapshot-magnitudes");
+    mg.start_time = (1 << 60) + 12_345;
+    mg.modify = true;
+    mg.modify_prices = true;
+    mg.modify_vols = vec![70_001];
+    mg.toggles = true;
+    mg.prices = vec![2_147_483_647, 2_147_483_648, 4_294_967_294];
+    mg.dt = DtMode::ZeroOneDisciplined;
+    mg.limit_vols = vec![1, 3_000_000_000];
+    mg.reload_modes = vec![0, 1, 2];
+    plans.push(plan("large times (beyond 2^53), prices and volumes", mg, 3, if t { 4 } else { 3 }));
     execute(
         &mut out,
         plans,
